@@ -135,7 +135,8 @@ def step (_ : Unit) (line : String) : Unit × String :=
         if nw > 40000 then "toobig " ++ toString nw else
         let r := Sem.run P qs ev
         renderRat r.z ++ " " ++ renderList (r.num.map renderRat) ++ " " ++ toString r.undefWorlds ++ " " ++
-          toString r.nworlds ++ " " ++ toString (Sem.hasNegCycle P (qs ++ ev.map (·.1)))
+          toString r.nworlds ++ " " ++ toString (Sem.hasNegCycle P (qs ++ ev.map (·.1))) ++ " " ++
+          toString (Sem.hasNegCycleFull P) ++ " " ++ toString (Sem.undefRootWorlds P qs ev)
       | none => "bad-op"
     | _, _, _ => "bad-op"
   | _ => "bad-op")
